@@ -54,6 +54,9 @@ func c11Programs() []seqDef {
 		sq("V().as(a).out().select(a)", q.V().As("a").Out().Select("a")),
 		sq("V().outE().as(e).out().select(e)", q.V().OutE().As("e").Out().Select("e")),
 		sq("V().out().fields(p)", q.V().Out().Fields("p")),
+		// marks on steps whose data the stored prefix itself never reads (every split point is resumed)
+		{"V().outE().as(e).in().as(b).render($e.p)", flat(q.V().OutE().As("e").In().As("b").Statements, []*gripql.GraphStatement{renderStmt(M{"w": "$e.p", "g": "_gid", "b": "$b.p"})})},
+		sq("V().bothE().as(e).both().has(gt($e.p,0))", q.V().BothE().As("e").Both().Has(cond("GT", "$e.p", 0.0))),
 		{"V().aggregate(term,count)", q.V().Aggregate([]*gripql.Aggregate{{Name: "t", Aggregation: &gripql.Aggregate_Term{Term: &gripql.TermAggregation{Field: "p"}}}, {Name: "c", Aggregation: &gripql.Aggregate_Count{Count: &gripql.CountAggregation{}}}}).Statements},
 		sq("V().out().limit(2)", q.V().Out().Limit(2)),
 		sq("V().hasKey(p).out()", q.V().HasKey("p").Out()),
